@@ -112,8 +112,79 @@ def tied_trunk_stream(ctx):
                                ['after %s the live dendrogram differs from a freshly constructed one in: %s' % (history, diff[:5])])
 
 
+def tied_peaks_stream(ctx):
+    """Images with few distinct values: several pixels share a subtree's maximum, so which one get_peak reports
+    depends on the current children.  Peaks read before a prune must not survive it; a file written before a prune
+    by a user criterion alone (the recorded parameters do not move) must not be what the next save writes."""
+    from astrodendro import Dendrogram
+    rng = ctx.rng('c14-tied-peaks')
+    for it in range(700 if ctx.quick else 7000):
+        shape = rng.choice([(3, 3), (3, 4), (4, 4), (3, 5), (2, 6), (1, 12)])
+        top = rng.choice([3, 4, 6])
+        vals = [rng.randint(1, top) for _ in range(shape[0] * shape[1])]
+        arr = np.array(vals, dtype=float).reshape(shape)
+        if rng.random() < 0.5:
+            # a junction pixel with three or four arms of one or two pixels whose peaks tie: removing a one-pixel
+            # arm changes which of the tied pixels is the peak of the branch
+            shape = (5, 5)
+            arr = np.zeros(shape)
+            arr[2, 2] = 5
+            arms = [[(1, 2), (0, 2)], [(2, 1), (2, 0)], [(2, 3), (2, 4)], [(3, 2), (4, 2)]]
+            rng.shuffle(arms)
+            for arm in arms[:rng.randint(3, 4)]:
+                pk = rng.choice([9, 9, 8])
+                if rng.random() < 0.5:
+                    arr[arm[0]] = pk
+                else:
+                    arr[arm[0]], arr[arm[1]] = rng.choice([6, 7]), pk
+            vals = [int(x) for x in arr.ravel()]
+        history = []
+        info = {'stream': 'tied peaks', 'shape': list(shape), 'data': vals}
+        try:
+            d = Dendrogram.compute(arr, min_value=0)
+            n0 = len(d)
+            for k in range(rng.randint(1, 3)):
+                pre = rng.choice(['peaks', 'peaks', 'saveload', 'newick', 'nothing'])
+                if pre == 'peaks':
+                    for s in d:
+                        s.get_peak(subtree=True)
+                elif pre == 'saveload':
+                    dc.save_load(d, rng.choice(['hdf5', 'fits']))
+                elif pre == 'newick':
+                    d.to_newick()
+                history.append(pre)
+                kind = rng.choice(['delta', 'npix', 'user'])
+                if kind == 'delta':
+                    kw = {'min_delta': rng.randint(1, 2)}
+                elif kind == 'npix':
+                    kw = {'min_npix': rng.randint(2, 3)}
+                else:
+                    t = rng.randint(2, top)
+                    kw = {'is_independent': lambda structure, index=None, value=None, t=t: structure.vmax >= t}
+                d.prune(**kw)
+                history.append('prune(%s)' % (', '.join('%s=%s' % (a, b if a != 'is_independent' else 'vmax >= %d' % t) for a, b in kw.items())))
+                if rng.random() < 0.5:
+                    d2 = dc.save_load(d, rng.choice(['hdf5', 'fits']))
+                    a, b = full_obs(d, shape), full_obs(d2, shape)
+                    diff = [k2 for k2 in a if a[k2] != b.get(k2)]
+                    history.append('saveload')
+                    if diff:
+                        ctx.oracle_failure(dict(info, history=history), ['a file saved at this point loads back to a dendrogram that differs in %s' % diff[:4]])
+                        break
+            diff = compare_fresh(d, shape)
+        except Exception as e:
+            ctx.oracle_failure(dict(info, history=history), ['raised %r' % (e,)])
+            continue
+        ctx.count('tied_peak_histories')
+        ctx.case_done(None, ('tiedpeaks', tuple(vals), shape, str(history)) if len(d) < n0 else None)
+        if diff:
+            ctx.oracle_failure(dict(info, history=history),
+                               ['after %s the live dendrogram differs from a freshly constructed one in: %s' % (history, diff[:5])])
+
+
 def explore(ctx):
     tied_trunk_stream(ctx)
+    tied_peaks_stream(ctx)
     rng = ctx.rng('c14')
     terms, meta = [], []
     tmpdir = tempfile.mkdtemp(prefix='verif-c14-', dir=dc.SCRATCH)
